@@ -57,5 +57,12 @@ KFwd(key, i) == LET rk == KeySchedule(key) IN
                 LET kk == [q \in 1..36 |-> IF q <= 4 THEN WXor(BlockWords(key)[q], FKLit[q]) ELSE rk[q - 4]] IN X4(kk[i + 2], kk[i + 3], kk[i + 4], CKLit[i + 1])
 ASSUME \A i \in 0..31, tq \in 1..2 : /\ KFwd(CraftKey(i, Targets[tq]), i) = Targets[tq]
                                       /\ PrintT(<<"PLAN", ToJson([kind |-> "craftkey", key |-> CraftKey(i, Targets[tq]), round |-> i])>>)
+\* ---- crafted keys whose ROUND KEY of one chosen round is the all-zero (or all-one) word: rk_i = K_i xor T'(K_i+1 ^ K_i+2 ^ K_i+3 ^ CK_i), so K_i is chosen as
+\*      T'(...) xor the wanted value, the other three words freely, and the state is run backwards to the master key.  0 is a legal round key. ----
+RkState3(i, v, a, b, c) == << WXor(TK(X4(a, b, c, CKLit[i + 1])), v), a, b, c >>
+RkState(i, v) == RkState3(i, v, CKLit[((i + 9) % 32) + 1], CKLit[((i + 14) % 32) + 1], CKLit[((i + 21) % 32) + 1])
+RkKey(i, v) == KeyOf(KBack(RkState(i, v), i))
+ASSUME \A i \in 0..31, v \in {<<0,0>>, <<65535,65535>>} : /\ KeySchedule(RkKey(i, v))[i + 1] = v
+                                                          /\ PrintT(<<"PLAN", ToJson([kind |-> "craftkey", key |-> RkKey(i, v), round |-> i, rkval |-> v[1]])>>)
 Emit == seq # <<>> => PrintT(<<"PLAN", ToJson([seq |-> seq])>>)
 =============================================================================
